@@ -244,6 +244,70 @@ def run_clash(ctx, i, rng):
       ctx.check(raised is not None, 'clash:not_rejected:' + kind, lambda: dict(case=desc))
 
 
+MIXED_SETUP = ['submodule', 'param', 'state_variable']
+MIXED_CLASH = ['submodule', 'param', 'state_variable']
+
+
+def run_mixed_style_clash(ctx, i, rng):
+  """A module that declares members in setup() and has a compact __call__, called several times on one instance: a compact-time
+  declaration that clashes with a setup-time name must be rejected in whichever call it happens (setup is not re-run, so its
+  names must stay reserved across calls)."""
+  import jax
+  import jax.numpy as jnp
+  import flax.linen as nn
+  from flax import errors
+  s_kind = MIXED_SETUP[i % 3]
+  c_kind = MIXED_CLASH[(i // 3) % 3]
+  at_call = (i // 9) % 3
+  n_calls = at_call + 1 + (i // 27) % 2
+  legal = (s_kind, c_kind) in (('param', 'state_variable'), ('state_variable', 'param'))  # same name in two collections is allowed
+  desc = dict(setup_member=s_kind, compact_member=c_kind, clash_in_call=at_call, calls=n_calls)
+  with ctx.case('mixed_clash', i, desc, nontrivial=True):
+    class Inner(nn.Module):
+      def setup(self):
+        if s_kind == 'submodule':
+          self.a = nn.Dense(3)
+        elif s_kind == 'param':
+          self.pa = self.param('a', nn.initializers.ones, (3,))
+        else:
+          self.va = self.variable('state', 'a', lambda: jnp.zeros((3,)))
+
+      @nn.compact
+      def __call__(self, x, clash):
+        y = nn.Dense(3, name='other')(x)
+        if s_kind == 'submodule':
+          y = y + self.a(x)
+        if clash:
+          if c_kind == 'submodule':
+            y = y + nn.Dense(3, name='a')(x)
+          elif c_kind == 'param':
+            y = y + self.param('a', nn.initializers.ones, (3,))
+          else:
+            y = y + self.variable('state', 'a', lambda: jnp.zeros((3,))).value
+        return y
+
+    class Outer(nn.Module):
+      @nn.compact
+      def __call__(self, x):
+        inner = Inner()
+        y = 0.0
+        for k in range(n_calls):
+          y = y + inner(x, k == at_call)
+        return y
+
+    try:
+      Outer().init(jax.random.key(i), jnp.ones((2, 4)))
+      raised = None
+    except errors.NameInUseError as e:
+      raised = e
+    ctx.op('init(setup+compact name clash)')
+    if legal:
+      ctx.check(raised is None, 'clash:legal_same_name_rejected:setup_then_compact', lambda: dict(case=desc))
+    else:
+      ctx.check(raised is not None, 'clash:not_rejected:setup_name_in_later_compact_call' if at_call else 'clash:not_rejected:setup_then_compact',
+                lambda: dict(case=desc))
+
+
 def run_reentrant(ctx, i, rng):
   """Re-entrant compact methods (a subclass calling super().__call__, a method calling self recursively): auto-names keep
   counting in creation order across the re-entrant calls, so every layer gets its own subtree."""
@@ -393,6 +457,8 @@ def run(ctx):
     run_share_scope(ctx, i, ctx.rng('share', i))
   for i in ctx.indices(24 if ctx.tier == 'quick' else 200, 'reentrant'):
     run_reentrant(ctx, i, ctx.rng('reentrant', i))
+  for i in ctx.indices(54, 'mixed_clash'):
+    run_mixed_style_clash(ctx, i, ctx.rng('mixed_clash', i))
   rlog = RngLog(ctx)
   n = 280 if ctx.tier == 'quick' else 4500
   for i in ctx.indices(n, 'case'):
